@@ -5,14 +5,16 @@
 // abstract state (spec/Avs.tla store) for trace validation by spec/Trace_Avs.tla.
 //
 // Entry points (what the AVS precompile / the cosmos message route call):
-//   RegisterAVS / UpdateAVS / DeregisterAVS -> AVSManagerKeeper.UpdateAVSInfo
-//   OptIn / OptOut                          -> AVSManagerKeeper.OperatorOptAction -> OperatorKeeper.OptIn/OptOut
-//   RegisterBLS                             -> AVSManagerKeeper.RegisterBLSPublicKey
-//   CreateTask                              -> AVSManagerKeeper.CreateAVSTask
-//   Submit                                  -> avskeeper.MsgServerImpl.SubmitTaskResult (message decoded from wire bytes)
-//   Challenge                               -> AVSManagerKeeper.RaiseAndResolveChallenge
-//   Tick                                    -> app.BeginBlocker with the header time advanced by 61 s
-//                                              (x/epochs ticks "minute": operator + avs AfterEpochEnd hooks run)
+//
+//	RegisterAVS / UpdateAVS / DeregisterAVS -> AVSManagerKeeper.UpdateAVSInfo
+//	OptIn / OptOut                          -> AVSManagerKeeper.OperatorOptAction -> OperatorKeeper.OptIn/OptOut
+//	RegisterBLS                             -> AVSManagerKeeper.RegisterBLSPublicKey
+//	CreateTask                              -> AVSManagerKeeper.CreateAVSTask
+//	Submit                                  -> avskeeper.MsgServerImpl.SubmitTaskResult (message decoded from wire bytes)
+//	Challenge                               -> AVSManagerKeeper.RaiseAndResolveChallenge
+//	Tick                                    -> app.BeginBlocker with the header time advanced by 61 s
+//	                                           (x/epochs ticks "minute": operator + avs AfterEpochEnd hooks run)
+//
 // Addresses are passed in the canonical forms the precompile produces (EIP-55 hex for AVS and task
 // contract addresses, bech32 for operators / owners).
 package main
@@ -36,9 +38,12 @@ import (
 	"github.com/prysmaticlabs/prysm/v4/crypto/bls/blst"
 	blscommon "github.com/prysmaticlabs/prysm/v4/crypto/bls/common"
 
+	sdkmath "cosmossdk.io/math"
+	assetskeeper "github.com/ExocoreNetwork/exocore/x/assets/keeper"
 	assetstypes "github.com/ExocoreNetwork/exocore/x/assets/types"
 	avskeeper "github.com/ExocoreNetwork/exocore/x/avs/keeper"
 	avstypes "github.com/ExocoreNetwork/exocore/x/avs/types"
+	delegationtypes "github.com/ExocoreNetwork/exocore/x/delegation/types"
 	operatortypes "github.com/ExocoreNetwork/exocore/x/operator/types"
 )
 
@@ -57,6 +62,7 @@ type avsDriver struct {
 	bls      map[string]blscommon.SecretKey // op id -> key
 	halted   bool
 	val      map[string]Num
+	valt     map[string]Num
 }
 
 func avsBlsKey(label string) blscommon.SecretKey {
@@ -81,7 +87,7 @@ func sortedAddrs(labels []string) []common.Address {
 
 func newAvsDriver(w *World) *avsDriver {
 	d := &avsDriver{w: w, avsAddr: map[string]common.Address{}, avsModel: map[string]string{}, tAddr: map[string]common.Address{},
-		tModel: map[string]string{}, acct: map[string]string{}, acctM: map[string]string{}, bls: map[string]blscommon.SecretKey{}, val: map[string]Num{}}
+		tModel: map[string]string{}, acct: map[string]string{}, acctM: map[string]string{}, bls: map[string]blscommon.SecretKey{}, val: map[string]Num{}, valt: map[string]Num{}}
 	for i, a := range sortedAddrs([]string{"avsA", "avsB"}) {
 		m := fmt.Sprintf("a%d", i+1)
 		d.avsAddr[m] = a
@@ -114,7 +120,8 @@ func newAvsDriver(w *World) *avsDriver {
 
 func (d *avsDriver) assetIDs() []string { return []string{d.w.AssetID[d.w.Cfg.Assets[0].ID]} }
 
-// self-delegated (= total, no third-party delegations in this family) USD value of every operator,
+// self-delegated and total USD value of every operator (o3: no stake of its own, 80 delegated by a staker that is
+// not associated with it; the others: self = total),
 // computed by the REAL x/operator code for the asset set every model AVS supports
 func (d *avsDriver) computeVals() {
 	k := d.w.App
@@ -131,10 +138,8 @@ func (d *avsDriver) computeVals() {
 	for _, o := range d.oord {
 		si, err := k.OperatorKeeper.CalculateUSDValueForOperator(d.ctx, false, d.acct[o], assets, decimals, prices)
 		must(err)
-		if !si.SelfStaking.Equal(si.Staking) {
-			panic("avs world: self value differs from total value")
-		}
 		d.val[o] = ND(si.SelfStaking)
+		d.valt[o] = ND(si.Staking)
 	}
 }
 
@@ -155,7 +160,7 @@ func (d *avsDriver) cfgJSON() map[string]interface{} {
 		eids = append(eids, e)
 	}
 	sort.Strings(eids)
-	return map[string]interface{}{"aord": aord, "tord": tord, "oord": d.oord, "regops": d.regops, "val": d.val,
+	return map[string]interface{}{"aord": aord, "tord": tord, "oord": d.oord, "regops": d.regops, "val": d.val, "valt": d.valt,
 		"epoch0": ep, "epochids": eids, "tickid": "minute", "owners": []string{"w1", "w2"}}
 }
 
@@ -175,6 +180,15 @@ func runAvs(args []string) int {
 	defer tw.Close()
 	base := newAvsDriver(w)
 	base.ctx = w.Ctx
+	// a third-party delegation: staker s2 (not associated with any operator) deposits and delegates 80 to o3, which
+	// has no stake of its own - its total value exceeds a minimum self-delegation its self value does not meet
+	{
+		aaddr := w.AssetAddr[gc.Assets[0].ID].Bytes()
+		saddr := w.StAddrs[1].Bytes()
+		x := sdkmath.NewIntWithDecimal(80, int(gc.Assets[0].Decimals))
+		must(w.App.AssetsKeeper.PerformDepositOrWithdraw(w.Ctx, &assetskeeper.DepositWithdrawParams{ClientChainLzID: LzID, Action: assetstypes.DepositLST, AssetsAddress: aaddr, StakerAddress: saddr, OpAmount: x}))
+		must(w.App.DelegationKeeper.DelegateTo(w.Ctx, &delegationtypes.DelegationOrUndelegationParams{ClientChainID: LzID, Action: assetstypes.DelegateTo, AssetsAddress: aaddr, OperatorAddress: w.OpAddrs[2], StakerAddress: saddr, OpAmount: x}))
+	}
 	base.computeVals()
 
 	behaviours := ReadBehaviours(*in)
